@@ -155,6 +155,29 @@ CLAIMED["C07"] = dict(
     ref="6/C07", note="trusted: as C01; gen/hist.py apply_rename is the independent abstract rename; known finding chain-depth",
     technique="Coq model with replacement-shape lemma (proof) + abstract-rename refinement oracle")
 
+CLAIMED["C16"] = dict(
+    category="proof",
+    text="Coq theorem C16_thread_private: in the slot-per-thread model, for EVERY interleaving of (failing call, read description) steps of any "
+         "number of threads each read returns the reader's own most recent failure; steps of other threads are irrelevant "
+         "(C16_other_threads_irrelevant). The regenerated source inventory must show CERR declared inside thread_local! "
+         "(cerr_is_thread_local, vm_compute on Generated/Ambient.v). Real threads are driven through barriers along generated schedules "
+         "(all interleavings of 2 threads x 3 steps in quick; 3x2 and long random ones in thorough) through the actual C table entries, and the "
+         "strings read are compared with the model.",
+    ref="6/C16",
+    note="trusted: Rust's thread_local! implementation; the token-level source scan; real-thread validation is testing, not proof",
+    technique="Coq proof (induction over interleavings of a slot model) + regenerated thread_local inventory + barrier-scripted real threads")
+CLAIMED["C17"] = dict(
+    category="proof",
+    text="Thin proof + validation: purity of the model is definitional (C17_amb_independent, C17_history_independent with the ambient state made "
+         "explicit; C17_empty_only_tid_random). The deciding obligations are regenerated from the source on every run: ambient_inventory (the "
+         "only static state is the thread-local C error slot; the random generator is used only for the id of ParsedPacket::empty) and "
+         "dict_fresh_per_call (every SuffixDict::new() is inside compress / rename_with_raw_names). Each of parse / uncompress / compress / "
+         "rename / synthesis is run alone, after another input, in a reused context and on 8 threads concurrently; all results must be "
+         "byte-identical and equal to the model's.",
+    ref="6/C17",
+    note="trusted: token-level source scan for statics / thread_local / lazy / atomics / rng; concurrent runs are testing, not proof",
+    technique="regenerated ambient-state inventory checked in Coq + definitional purity of the model + sequential/concurrent differential runs")
+
 PENDING_REASON = "check not built yet in this round (model/theorems in progress; see DESIGN.md section 11 for the order of work)"
 
 
